@@ -24,6 +24,8 @@ type fnInfo struct {
 
 type Engine struct {
 	staleContracts []staleContract
+	shapesBase  map[string]bodyShape // loop / literal signatures per body under contract at baseline time
+	funcsBase   map[string]bool // names of all repository functions at baseline time (nil: unknown)
 	localsBase  map[string][]localDecl // baseline declarations per function (rename repair)
 	renameCache map[*types.Func]*renameMaps
 	renameMu    sync.Mutex
